@@ -668,6 +668,14 @@ def rule_tb1(ctx, RID):
         ctx.check(RID, lo >= 0 and up, load.name, 'UpdateDeps:id-unbounded', load.where(e),
                   'output id handed to UpdateDeps is in [0, nodes_.size()): lower %s, guarded %s' % (lo, up))
     ud = prog.fn('DepsLog::UpdateDeps')
+    # "the deps of an output are those most recently recorded": UpdateDeps installs the record it is given on every path
+    # (no comparison with what was there decides whether the newer record counts)
+    pdeps = [p_['n'] for p_ in ud.params if 'Deps' in (p_.get('ty') or '')]
+    inst_ = [e for e in ud.events('asg') if mentions_field(e['l'], 'DepsLog::deps_') and e['op'] == '=' and pdeps and mentions_var(e.get('r'), pdeps[0])]
+    r_ = ud.find_path(None, lambda x: x['k'] in ('ret', 'exit'), from_succ=ud.entry, is_blocker=lambda x: x in inst_)
+    ctx.check(RID, bool(inst_) and r_ is None, ud.name, 'UpdateDeps:record-not-installed', ud.loc,
+              'DepsLog::UpdateDeps stores the record it was given on every path (the latest record of an output wins)',
+              witness=None if r_ is None else {'blocks': r_[0]})
     for e in ud.events('call'):
         if e.get('op') == '[]' and mentions_field(e.get('recv'), 'DepsLog::deps_'):
             dominated_by(ctx, RID, ud, e, lambda x: x['k'] == 'call' and lastname(x.get('name')) == 'resize' and
